@@ -44,18 +44,31 @@ type key struct {
 	priv crypto.PrivKey
 	pub  crypto.PubKey
 	pem  []byte
+	// nilKind: 1 = a nil entry of the offered slice, 2 = a nil *Ed25519PrivateKey in the interface
+	nilKind int
 }
+
+// key pool indexes beyond the recipients (0..3) and the unrelated keys (4, 5)
+const (
+	kUnsupported = 6  // private key of an unsupported type
+	kShadow0     = 7  // 7, 8, 9: shadow of recipient 0, 1, 2 (reports its public key, holds another seed)
+	kNil         = 10 // nil crypto.PrivKey
+	kTypedNil    = 11 // (*crypto.Ed25519PrivateKey)(nil)
+	kPool        = 12
+)
 
 type engine struct {
 	a    *lib.Args
 	rng  *lib.Rng
 	m    *lib.Model
 	rep  *lib.Report
-	keys []*key // 0..3 recipients pool, 4..5 unrelated, 6 a private key of an unsupported type
+	keys []*key // 0..3 recipients pool, 4..5 unrelated, 6 a private key of an unsupported type, 7..9 shadow keys, 10/11 nil keys
 	// badPub is a public key of a type the envelope code does not support (ECDSA P-256, verify-only adapter)
 	badPub crypto.PubKey
 	tcN    int // rotates the key-subset class of the C18 tamper cases
 	normAt int // rotates through the normalisations of harness/norm
+	// knownOther counts, per class of the known finding C18-unauthenticated-envelope, the cases that opened to another payload
+	knownOther map[string]int
 }
 
 // fakePriv is a crypto.PrivKey of an unsupported type: its public key cannot be marshalled to PEM,
@@ -82,6 +95,42 @@ func (e *engine) setupKeys() {
 	e.badPub = unsupportedPub()
 	// the model sees this key under a PEM no envelope keypair can carry
 	e.keys = append(e.keys, &key{priv: fakePriv{e.badPub}, pub: e.badPub, pem: bytes.Repeat([]byte{0xfe}, 64)})
+	// shadow keys: crypto.UnmarshalEd25519PrivateKey takes a 64-byte key as it comes, so seed ‖ pub
+	// of two different keys is a key object that REPORTS recipient i's public key (same PEM) and
+	// can decrypt nothing sealed to it
+	for i := 0; i < 3; i++ {
+		raw := append(ed25519.NewKeyFromSeed(e.rng.Bytes(32))[:32:32], e.keys[i].pub.(*crypto.Ed25519PublicKey).GetStdKey()...)
+		sh, err := crypto.UnmarshalEd25519PrivateKey(raw)
+		if err != nil {
+			panic(err)
+		}
+		pem, err := keypem.MarshalPubKeyPem(sh.GetPublic())
+		if err != nil || !bytes.Equal(pem, e.keys[i].pem) {
+			panic("harness: shadow key does not report the recipient's public key")
+		}
+		e.keys = append(e.keys, &key{priv: sh, pub: sh.GetPublic(), pem: pem})
+	}
+	e.keys = append(e.keys, &key{nilKind: 1}, &key{priv: (*crypto.Ed25519PrivateKey)(nil), nilKind: 2})
+	if len(e.keys) != kPool {
+		panic("harness: key pool layout")
+	}
+}
+
+// modelOffer: the offered key indexes as the abstract model names them (k < 100 toy key k,
+// 100+i a shadow of key i, 200.. a nil entry).
+func modelOffer(l []int) []int {
+	out := make([]int, len(l))
+	for i, k := range l {
+		switch {
+		case k >= kNil:
+			out[i] = 200 + k - kNil
+		case k >= kShadow0:
+			out[i] = 100 + k - kShadow0
+		default:
+			out[i] = k
+		}
+	}
+	return out
 }
 
 type rndReader struct{ r *lib.Rng }
@@ -473,7 +522,14 @@ func ansHex(b []byte, ok bool) string {
 }
 
 // modelUnlockWire asks the model for the outcome of UnmarshalVT+UnlockEnvelope on wire bytes.
-func (e *engine) modelUnlockWire(wire []byte, ctx string, offered []*key) (op string, res string) {
+func (e *engine) modelUnlockWire(wire []byte, ctx string, offeredAll []*key) (op string, res string) {
+	// nil entries of the offered slice are skipped by matchPrivKeys: the model's key list is the rest
+	var offered []*key
+	for _, k := range offeredAll {
+		if k.nilKind == 0 {
+			offered = append(offered, k)
+		}
+	}
 	pems := make([][]byte, len(offered))
 	for i, k := range offered {
 		pems[i] = k.pem
@@ -553,6 +609,19 @@ func (e *engine) wireCaseX(wire []byte, ctx string, offered []*key, orig []byte,
 	case strings.HasPrefix(impl, "opened"):
 		if orig != nil && lib.KV(impl, "payload") != lib.Hex(orig) {
 			mon = "UnlockEnvelope returned a payload other than the sealed one (" + gen + ")"
+			// the two classes of the known finding (no sender authentication): only THIS verdict goes
+			// under its key — "opened with keys below the threshold" stays an ordinary violation —
+			// and only the first few per run are recorded (the report keeps 200 disagreements)
+			for _, cl := range []string{"insider-reseal", "rebuilt-same-id"} {
+				if mustNotOpen == "" && (gen == cl || strings.HasPrefix(gen, cl+"/")) {
+					key = "envelope.unlock:unauthenticated/" + cl
+					e.knownOther[cl]++
+					e.rep.Branches["known.unauthenticated."+cl]++
+					if e.knownOther[cl] > 3 {
+						mon = ""
+					}
+				}
+			}
 		}
 		if mustCtxMismatch {
 			mon = "UnlockEnvelope succeeded under a different context (" + gen + ")"
@@ -980,7 +1049,49 @@ func (e *engine) offers(c cfg, n int) [][]int {
 				l = append(l, i)
 			}
 		}
-		switch e.rng.Intn(5) {
+		switch e.rng.Intn(9) {
+		case 5:
+			// a shadow of an offered recipient BEFORE the genuine key (and sometimes another after it)
+			if len(l) > 0 {
+				r := l[e.rng.Intn(len(l))]
+				if r < 3 {
+					l = append([]int{kShadow0 + r}, l...)
+					if e.rng.Intn(3) == 0 {
+						l = append(l, kShadow0+r)
+					}
+					e.rep.Branches["gen.shadow-first"]++
+				}
+			}
+		case 6:
+			// a shadow of a recipient whose genuine key is NOT offered: reaches nothing
+			for r := 0; r < c.nkeys && r < 3; r++ {
+				if m&(1<<r) == 0 {
+					l = append(l, kShadow0+r)
+					e.rep.Branches["gen.shadow-only"]++
+					break
+				}
+			}
+		case 7:
+			// shadows of every offered recipient, all in front
+			var sh []int
+			for _, r := range l {
+				if r < 3 {
+					sh = append(sh, kShadow0+r)
+				}
+			}
+			if len(sh) > 0 {
+				l = append(sh, l...)
+				e.rep.Branches["gen.shadow-first"]++
+			}
+		case 8:
+			// nil entries (a nil interface / a nil key pointer) among the keys
+			pos := e.rng.Intn(len(l) + 1)
+			nk := []int{kNil, kTypedNil}[e.rng.Intn(2)]
+			l = append(l[:pos:pos], append([]int{nk}, l[pos:]...)...)
+			if e.rng.Intn(2) == 0 {
+				l = append(l, kNil+kTypedNil-nk)
+			}
+			e.rep.Branches["gen.nil-key"]++
 		case 4:
 			// a private key of an unsupported type (skipped by matchPrivKeys), first or last
 			if e.rng.Intn(2) == 0 {
@@ -1014,14 +1125,23 @@ func (e *engine) offerKeys(l []int) []*key {
 // runCase: abstract prediction from the configuration + wire-level prediction; C16 monitor.
 func (e *engine) runCase(b *built, offer []int) {
 	c := b.c
-	op := "envelope.run " + c.args() + " offer=" + natList(offer)
+	op := "envelope.run " + c.args() + " offer=" + natList(modelOffer(offer))
 	model := e.m.Query(op)
 	impl := unlockImpl(b.ctx, b.env, e.privs(e.offerKeys(offer)), b.payload)
-	// monitor: independent statement of C16
+	// monitor: independent statement of C16. What the offered keys can decrypt is decided by the
+	// GENUINE recipient keys among them: a shadow key (reports a recipient's public key, holds
+	// another seed), an unrelated key, a key of an unsupported type and a nil entry decrypt nothing,
+	// wherever they stand in the list.
 	off := map[int]bool{}
+	extra := ""
 	for _, k := range offer {
-		if k < c.nkeys {
+		switch {
+		case k < c.nkeys:
 			off[k] = true
+		case k >= kNil:
+			extra = " (the offer contains a nil key)"
+		case k >= kShadow0 && extra == "":
+			extra = " (the offer contains a key object that reports a recipient's public key but holds another private half)"
 		}
 	}
 	avail, unlocked := specReach(c, off)
@@ -1031,7 +1151,7 @@ func (e *engine) runCase(b *built, offer []int) {
 	}
 	mon := ""
 	if impl != want {
-		mon = fmt.Sprintf("UnlockEnvelope result differs from what the offered keys can reach: want %q got %q", want, impl)
+		mon = fmt.Sprintf("UnlockEnvelope result differs from what the offered keys can reach%s: offer %v, want %q got %q", extra, offer, want, impl)
 	}
 	br := "run." + strings.SplitN(model, " ", 2)[0]
 	if avail == int(c.t)+1 {
@@ -1344,7 +1464,8 @@ var c16Branches = []string{"run.repeated-recipient", "plan.ok", "plan.ok.empty-g
 	"run.opened", "run.opened.exact", "run.locked", "wire.opened", "wire.locked",
 	"scalar.ok", "scalar.err", "polyeval", "recover.ok", "recover.err", "recover.panic", "encctx", "kdctx", "encinner", "inner.ok", "inner.err",
 	"id.auto", "id.configured", "id.fresh", "offers.all8", "gen.large-share-count", "gen.unsupported-privkey",
-	"plan.err.emptyPayload", "plan.err.noGrants", "plan.err.encrypt"}
+	"plan.err.emptyPayload", "plan.err.noGrants", "plan.err.encrypt",
+	"witness.shadow", "gen.shadow-first", "gen.shadow-only", "gen.nil-key"}
 
 // repeatedRecipients: the same public key occupies two recipient slots (a recipient listed twice).
 // Offering that key's private half reaches the grants of BOTH slots: the model is asked with the
@@ -1414,6 +1535,24 @@ func (e *engine) repeatedRecipients(n int) {
 	}
 }
 
+// shadowWitness replays, every run, the offers of Props/C16 first_match_exact_false on the real
+// code: a key object that reports recipient 1's public key but holds another seed, offered before /
+// after / without the genuine key, and nil entries next to genuine keys.
+func (e *engine) shadowWitness() {
+	c := cfg{nkeys: 2, t: 1, grants: []gcfg{{1, []uint32{0}}, {2, []uint32{1}}}}
+	b := e.planCase(c, "shadow-witness")
+	if b.err != nil || b.env == nil {
+		return
+	}
+	for _, off := range [][]int{
+		{kShadow0 + 1, 1}, {1, kShadow0 + 1}, {kShadow0 + 1}, {kShadow0 + 1, kShadow0 + 1, 1}, {kShadow0, kShadow0 + 1, 0, 1},
+		{kShadow0, 1}, {kShadow0 + 1, 0}, {kNil, 1}, {kTypedNil, 1}, {1, kNil}, {kNil}, {kTypedNil}, {kNil, kTypedNil, 0}, {kShadow0 + 1, kNil, 1},
+	} {
+		e.runCase(b, off)
+		e.rep.Branches["witness.shadow"]++
+	}
+}
+
 func (e *engine) runC16() {
 	e.rep.Rule = "envelope configurations sampled from the stated bound (1-3 keys, 1-4 grants, share counts 0-2, keypair index lists of length 0-3 with duplicates, thresholds 0-3, total-share overrides 0-5, rare out-of-range index; one in three with the EnvelopeId field set; one in eight with share counts 3-64 and thresholds up to their sum; one in 25 with an empty payload, a nil configuration or a recipient key of an unsupported type) x ALL subsets of the recipients' keys mixed with unrelated / duplicated / shuffled keys and a private key of an unsupported type; the envelope id of every sealed envelope against the configured id / hex(BLAKE3(secret ‖ context)[:16]) with the secret recovered from the shares, and its freshness across two builds; every accepted configuration is built with the real BuildEnvelope and unlocked (a) against the model's prediction from the configuration alone and (b) against the model run on the real envelope bytes with oracle primitives; CIRCL Recover/Evaluate and the scalar codec vs the model's Lagrange over Z/l on honest, duplicated, aliased, zero-id share sets; distinct = distinct op line"
 	e.rep.Require(c16Branches...)
@@ -1421,6 +1560,7 @@ func (e *engine) runC16() {
 	e.sharingTie(400 * e.a.Scale)
 	e.stringsTie(300 * e.a.Scale)
 	e.guardCases()
+	e.shadowWitness()
 	e.repeatedRecipients(12 * e.a.Scale)
 	n := 1200 * e.a.Scale
 	for i := 0; i < n; i++ {
@@ -1798,7 +1938,8 @@ func subsetClasses(c cfg) map[string][][]int {
 var c18Branches = []string{"ctxhash", "keys.none", "keys.below", "keys.at", "keys.above", "gen.keyless-grant", "gen.relabel", "gen.ctx-prefix", "gen.ctx-long",
 	"encctx", "kdctx", "wire.opened", "wire.locked", "wire.err.contextMismatch", "wire.err.decryptionFailed", "wire.err.recover",
 	"wire.err.unmarshal", "wire.err.noGrants", "wire.err.noKeypairs", "decode.ok", "decode.err",
-	"gen.alias", "gen.ctx", "gen.ctx-normalised", "norm.ctxhash", "norm.ctxstring", "gen.threshold-max", "gen.short-grant-ct", "gen.short-ct"}
+	"gen.alias", "gen.ctx", "gen.ctx-normalised", "norm.ctxhash", "norm.ctxstring", "gen.threshold-max", "gen.short-grant-ct", "gen.short-ct",
+	"gen.insider-reseal", "gen.rebuilt-same-id", "gen.rebuilt-derived-id"}
 
 func (e *engine) runC18() {
 	e.rep.Rule = "sealed envelopes (configurations from the C16 bound with decryptable grants) unlocked under other contexts; every top-level field replaced (envelope id, context hash, threshold incl. 2^32-1, ciphertext bit flips / truncations below and above the nonce size / foreign ciphertext, grants dropped / duplicated / swapped / keypair indexes rewritten / ciphertexts flipped and truncated to 0..52 bytes, keypairs dropped / reordered / garbage), grants re-encrypted by an outsider with aliased, duplicated, zero, mis-sized share ids and garbage plaintexts, wire-level bit flips / truncations / random bytes; the model predicts the exact outcome on the bytes; distinct = distinct op line"
@@ -1864,9 +2005,13 @@ func (e *engine) runC18() {
 		// rotates. Whatever was done to the envelope, keys that reach fewer than threshold+1 of the
 		// original shares (or no recipient key at all) must not open it: the secret is not
 		// determined by fewer shares, and nothing but the secret yields the payload key.
+		var tcxk func(env *envelope.Envelope, gen, fkey, mustNotOpen string)
 		tcx := func(env *envelope.Envelope, gen string, mustNotOpen string) {
+			tcxk(env, gen, "envelope.unlock:"+gen, mustNotOpen)
+		}
+		tcxk = func(env *envelope.Envelope, gen, fkey, mustNotOpen string) {
 			w := mustWire(env)
-			e.wireCaseX(w, ctx, all, payload, gen, "envelope.unlock:"+gen, false, false, mustNotOpen)
+			e.wireCaseX(w, ctx, all, payload, gen, fkey, false, false, mustNotOpen)
 			order := []string{"none", "below", "at", "above"}
 			for k := 0; k < 4; k++ {
 				cl := order[(e.tcN+k)%4]
@@ -1875,7 +2020,7 @@ func (e *engine) runC18() {
 				}
 				sub := classes[cl][e.rng.Intn(len(classes[cl]))]
 				if cl == "none" || e.rng.Intn(3) == 0 {
-					sub = append(append([]int(nil), sub...), 4+e.rng.Intn(3)) // plus an unrelated / unsupported key
+					sub = append(append([]int(nil), sub...), 4+e.rng.Intn(kPool-4)) // plus an unrelated / unsupported / shadow / nil key
 				}
 				why := mustNotOpen
 				if why == "" && cl == "none" {
@@ -1884,7 +2029,7 @@ func (e *engine) runC18() {
 				if why == "" && cl == "below" {
 					why = "the offered keys reach fewer than threshold+1 shares of the sealed envelope"
 				}
-				e.wireCaseX(w, ctx, e.offerKeys(sub), payload, gen+"/keys-"+cl, "envelope.unlock:"+gen, false, false, why)
+				e.wireCaseX(w, ctx, e.offerKeys(sub), payload, gen+"/keys-"+cl, fkey, false, false, why)
 				e.rep.Branches["keys."+cl]++
 				break
 			}
@@ -1995,7 +2140,47 @@ func (e *engine) runC18() {
 				t.Ciphertext = b.env.Ciphertext
 				t.EnvelopeId = b.env.EnvelopeId
 				tcx(t, "grants-foreign-same-id", foreign)
+				// the WHOLE content of another envelope for the same recipients, context and
+				// configuration (ciphertext and grants together) under this envelope's id: with a
+				// configured id the two envelopes share it and the result opens — to the OTHER
+				// payload (nothing authenticates the sender; known finding). With a derived id the
+				// foreign grants are sealed under another id and nothing opens.
+				t = clone(b.env)
+				t.Ciphertext = b2.env.Ciphertext
+				t.Grants = b2.env.CloneVT().Grants
+				t.Threshold = b2.env.Threshold
+				if c.id != "" {
+					tcxk(t, "rebuilt-same-id", "envelope.unlock:rebuilt-same-id", "")
+					e.rep.Branches["gen.rebuilt-same-id"]++
+				} else {
+					tcx(t, "rebuilt-derived-id", "ciphertext and grants were sealed under another (derived) envelope id")
+					e.rep.Branches["gen.rebuilt-derived-id"]++
+				}
 			}
+		}
+
+		// insider re-seal: whoever holds threshold+1 shares (here: all recipients together) recovers
+		// the secret, derives the payload key and seals ANOTHER payload under it. Computed with
+		// CIRCL / blake3 / chacha20poly1305 directly. The envelope opens to the other payload for
+		// every key set that reaches the threshold (known finding: no sender authentication) and
+		// must stay locked for key sets below it.
+		if secret, ok := e.recoverSecret(b); ok {
+			aead, err := chacha20poly1305.NewX(kdfKey(envelope.VerifBuildKeyDerivationContext(b.env.GetEnvelopeId(), ctx), secret))
+			if err != nil {
+				panic(err)
+			}
+			other := e.rng.Bytes(1 + e.rng.Intn(40))
+			if bytes.Equal(other, payload) {
+				other = append(other, 1)
+			}
+			nonce := e.rng.Bytes(24)
+			if e.rng.Intn(2) == 0 {
+				nonce = append([]byte(nil), b.env.Ciphertext[:24]...) // the original nonce re-used
+			}
+			t = clone(b.env)
+			t.Ciphertext = aead.Seal(nonce, nonce, other, nil)
+			tcxk(t, "insider-reseal", "envelope.unlock:insider-reseal", "")
+			e.rep.Branches["gen.insider-reseal"]++
 		}
 
 		// grants
@@ -2194,7 +2379,7 @@ func main() {
 		return
 	}
 	a := lib.ParseArgs()
-	e := &engine{a: a, rng: lib.NewRng(a.Seed), m: lib.NewModel(a.Driver)}
+	e := &engine{a: a, rng: lib.NewRng(a.Seed), m: lib.NewModel(a.Driver), knownOther: map[string]int{}}
 	e.rep = lib.NewReport("envelope", a)
 	e.setupKeys()
 	switch a.Prop {
